@@ -16,6 +16,7 @@ import shutil
 import subprocess
 import sys
 import sysconfig
+import time
 import gzip
 from concurrent.futures import ThreadPoolExecutor
 from pathlib import Path
@@ -202,17 +203,21 @@ def build(flavour="plain", verbose=False):
         (tmpdir / ".ok").write_text("ok")
         shutil.rmtree(outdir, ignore_errors=True)
         os.replace(tmpdir, outdir)
-        # prune old builds of this flavour (keep 3 most recent) and old objects
+        # prune old builds / objects of this flavour: only things that have not been
+        # touched for 6 hours (concurrent checks against other trees may be using
+        # the recent ones), and never the 30 most recent
+        now = time.time()
         olds = sorted([p for p in BUILD.glob(f"{flavour}-*") if p != outdir],
                       key=lambda p: p.stat().st_mtime)
-        for p in olds[:-2]:
-            shutil.rmtree(p, ignore_errors=True)
+        for p in olds[:-30]:
+            if now - p.stat().st_mtime > 6 * 3600:
+                shutil.rmtree(p, ignore_errors=True)
+        keep = {o for m in mods.values() for o in m}
         objs_all = sorted((BUILD / "obj").glob(f"*.{flavour}.*.o"),
                           key=lambda p: p.stat().st_mtime)
-        keep = {o for m in mods.values() for o in m}
-        extra = [o for o in objs_all if o not in keep]
-        for p in extra[:-40]:
-            p.unlink(missing_ok=True)
+        for p in [o for o in objs_all if o not in keep][:-300]:
+            if now - p.stat().st_mtime > 6 * 3600:
+                p.unlink(missing_ok=True)
         return outdir
     finally:
         fcntl.flock(lock, fcntl.LOCK_UN)
